@@ -56,6 +56,13 @@ impl SlotIndex {
         self.0 == FREE_LIST_END
     }
 
+    /// Verification hook (off by default): the raw stored index value.
+    #[cfg(gecs_verif)]
+    #[inline(always)]
+    pub(crate) const fn __verif_raw(&self) -> u32 {
+        self.0
+    }
+
     /// Returns the data index this slot points to, if valid (e.g. not free).
     #[inline(always)]
     pub(crate) fn index_data(&self) -> Option<TrimmedIndex> {
@@ -140,6 +147,13 @@ impl Slot {
     #[inline(always)]
     pub(crate) fn version(&self) -> SlotVersion {
         self.version
+    }
+
+    /// Verification hook (off by default): overwrites this slot's version.
+    #[cfg(gecs_verif)]
+    #[inline(always)]
+    pub(crate) fn __verif_set_version(&mut self, version: SlotVersion) {
+        self.version = version;
     }
 
     /// Assigns a slot to some data. This does not increment the version.
